@@ -141,5 +141,8 @@ func (e *TupleExpr) Eval(ctx context.Context, local Scope) (Value, error) {
 		}
 	}
 	// TODO: Construct new tuple directly
-	return tuple.(*GenericTuple).Canonical(), nil
+	if t, is := tuple.(*GenericTuple); is {
+		return t.Canonical(), nil
+	}
+	return tuple, nil
 }
